@@ -160,6 +160,19 @@ Proof.
   destruct m; unfold ch_view; cbn. rewrite keyShares_priv_pub_priv, pskIdentities_priv_pub_priv. auto.
 Qed.
 
+(* getPrivatePtr never reads the cache pointer: a second conversion after any edit sees only the edited fields,
+   whatever an earlier conversion left in cachedPrivateHello *)
+Lemma CH_private_ignores_cache c e : CH_private_of (CH_set_cached c e) = CH_private_of c.
+Proof. now destruct c. Qed.
+Lemma CH_reconversion c0 c1 p0 c0' p1 c1' :
+  CH_getPrivatePtr (Some c0) = Some (p0, c0') ->
+  CH_getPrivatePtr (Some (CH_set_cached c1 (CH_cachedPrivateHello c0'))) = Some (p1, c1') ->
+  p1 = CH_private_of c1 /\ exists c2, ch_getPublicPtr (Some p1) = Some c2 /\ CH_view c2 = CH_view c1.
+Proof.
+  intros _ H. cbn [CH_getPrivatePtr] in H. injection H as <- _. rewrite CH_private_ignores_cache. split; [reflexivity|].
+  destruct (CH_pub_priv_pub c1 _ _ eq_refl) as (c2 & E & V & _). eauto.
+Qed.
+
 (* exact (whole-record) form when no rebuilt slice is empty-but-not-nil *)
 Lemma CH_pub_priv_pub_exact c : CH_KeyShares c <> Some [] -> CH_PskIdentities c <> Some [] ->
   ch_getPublicPtr (Some (CH_private_of c)) = Some (CH_set_cached c (Some (CH_private_of c))).
